@@ -22,9 +22,14 @@ func main() {
 			continue
 		}
 		for _, name := range os.Args[2:] {
-			if f := p.Func(name); f != nil {
-				f.WriteTo(os.Stdout)
-			} else {
+			found := false
+			for fn := range ssautil.AllFunctions(prog) {
+				if fn.Pkg == p && (fn.Name() == name || fn.RelString(p.Pkg) == name) {
+					fn.WriteTo(os.Stdout)
+					found = true
+				}
+			}
+			if !found {
 				fmt.Println("no func", name)
 			}
 		}
